@@ -49,7 +49,9 @@ it holds; every conclusion is `Add(views, inference(Cls_c)(src=x))`, identified 
 With that, the key `update_conclusion` stores in `concluded_before` (the bindings restricted to the variables
 of the conclusions) is just the value of `x` — `Dedup.byBinding`.
 
-Quirks (DESIGN 2.4): `climbOnce` (F-C08-1), `refNoRelink` (F-C08-2), `dedup := byBinding` (F-C08-3).
+Quirks (DESIGN 2.4), all three repaired in the code (`Quirks.today`; `Quirks.legacy` = before the fixes):
+`climbOnce` (F-C08-1, 5ccefb5), `refNoRelink` (F-C08-2, 6d59379), `dedup := byBinding` (F-C08-3,
+f11669e: now `atRoot`). Open: the `leak` flag of the two-variable evaluators (F-C08-4).
 
 **Spec**: `Rule`, `fire` — the ripple-down-rules interpreter of the property text.
 -/
@@ -216,22 +218,26 @@ def WellFormed (t : Sel) (r : Rule) : Prop := t.shape = r.compile ∧ t.ids.Nodu
 
 /-- how `ConclusionSelector.update_conclusion` keys `concluded_before` -/
 inductive Dedup where
-  | byBinding      -- today: the bindings of the conclusions' variables only (F-C08-3)
-  | byConclusion   -- repaired: the conclusions and those bindings
+  | byBinding      -- before fix f11669e: every selector, keyed by the bindings of the conclusions' variables only
+  | byConclusion   -- every selector, keyed by the conclusions and those bindings
   | off            -- no de-duplication
+  | atRoot         -- today (fix f11669e): only the outermost selector, keyed by the conclusions and those bindings
   deriving DecidableEq, Repr
 
 structure Quirks where
-  /-- F-C08-1: `alternative_or_next` climbs one level only and always overwrites `prev_parent.right` -/
+  /-- F-C08-1 (fixed): `alternative_or_next` climbed one level only and always overwrote `prev_parent.right` -/
   climbOnce : Bool
-  /-- F-C08-2: `refinement` re-parents in the rx graph / `_child_` but leaves `prev_parent.left/right` alone -/
+  /-- F-C08-2 (fixed): `refinement` re-parented in the rx graph / `_child_` but left `prev_parent.left/right` alone -/
   refNoRelink : Bool
   /-- F-C08-3 -/
   dedup : Dedup
   deriving DecidableEq, Repr
 
-def Quirks.today : Quirks := ⟨true, true, .byBinding⟩
-def Quirks.fixed : Quirks := ⟨false, false, .off⟩
+/-- the code before the fixes of F-C08-1/2/3 -/
+def Quirks.legacy : Quirks := ⟨true, true, .byBinding⟩
+/-- the code as it is: `alternative_or_next` climbs to the top of the chain and re-links the side it was on,
+`refinement` re-links `prev_parent.left/right`, conclusions are de-duplicated once, by the outermost selector -/
+def Quirks.today : Quirks := ⟨false, false, .atRoot⟩
 
 /-! ## (a) Construction -/
 
@@ -536,6 +542,7 @@ def update (d : Dedup) (id x : Nat) (isF : Bool) (concl : List Nat) (seen : Seen
   if concl.isEmpty then ([], seen)
   else match d with
     | .off => (concl, seen)
+    | .atRoot => (concl, seen)   -- an inner selector hands its selection on; the outermost one: `rootDedup`
     | .byBinding =>
       if seen.contains (id, !isF, x, []) then ([], seen) else (concl, (id, !isF, x, []) :: seen)
     | .byConclusion =>
@@ -612,9 +619,21 @@ def topOuts (outs : List Out) : List (List Nat × Nat) :=
 def rowsOf (obs : List (List Nat × Nat)) : List (Nat × Nat) :=
   obs.flatMap fun (cs, x) => cs.map fun c => (c, x)
 
+/-- keep the first occurrence of every element -/
+def dedupFirst {α} [BEq α] (l : List α) : List α :=
+  l.foldl (fun acc a => if acc.contains a then acc else acc ++ [a]) []
+
+/-- `Dedup.atRoot`: the outermost selector skips a set of conclusions it already produced for the same values of
+their variables (its `_conclusion_` stays empty, the query descriptor drops the result); a query whose condition
+is a plain condition has no selector -/
+def rootDedup {α} [BEq α] (d : Dedup) (t : Sel) (rows : List α) : List α :=
+  match d, t with
+  | .atRoot, .node _ _ _ _ => dedupFirst rows
+  | _, _ => rows
+
 /-- `query.evaluate()` on a selector tree, as rows -/
 def evalTop (pay : Payload) (d : Dedup) (dom : List Nat) (t : Sel) : List (Nat × Nat) :=
-  rowsOf (topOuts (evalT pay d dom t none []).1)
+  rowsOf (rootDedup d t (topOuts (evalT pay d dom t none []).1))
 
 /-! ### continuation-passing transcription (exact under sharing) -/
 
@@ -628,6 +647,8 @@ structure NSt where
 
 structure KSt where
   ns : List NSt
+  /-- the outermost selector (`Dedup.atRoot`) -/
+  root : Option Nat := none
   seen : Seen := []
   out : List (List Nat × Nat) := []
   deriving DecidableEq, Repr
@@ -640,6 +661,9 @@ def upd (s : KSt) (i : Nat) (f : NSt → NSt) : KSt := { s with ns := s.ns.set i
 def updateConclusion (d : Dedup) (s : KSt) (id x : Nat) (concl : List Nat) : KSt :=
   if concl.isEmpty then s
   else
+    let d := match d with
+      | .atRoot => if s.root == some id then Dedup.byConclusion else Dedup.off
+      | d => d
     let key : Nat × Bool × Nat × List Nat :=
       (id, !(s.get id).isF, x, match d with | .byConclusion => concl | _ => [])
     if d != .off && s.seen.contains key then s
@@ -722,7 +746,8 @@ def runK (pay : Payload) (d : Dedup) (dom : List Nat) (nodes : List Node) (t : S
     if f then s
     else
       let c := (s.get t.id).concl
-      if c.isEmpty then s else { s with out := s.out ++ [(c, x)] }) (KSt.init pay nodes)).out
+      if c.isEmpty then s else { s with out := s.out ++ [(c, x)] })
+    { KSt.init pay nodes with root := some t.id }).out
 
 /-! ## The model of `query.evaluate()` for a program -/
 
@@ -747,7 +772,7 @@ def modelOf (built : Option BState) (d : Dedup) (pay : Payload) (dom : List Nat)
     | some t =>
       let rk := runK pay d dom st.nodes t
       if t.ids.Nodup then
-        let rt := topOuts (evalT pay d dom t none []).1
+        let rt := rootDedup d t (topOuts (evalT pay d dom t none []).1)
         if rt = rk then .ok rt else .mismatch
       else .ok rk
 
@@ -913,6 +938,7 @@ def update2 (d : Dedup) (id : Nat) (b : Bnd) (isF : Bool) (concl : List Nat) (se
     let key := keyOf concl b
     match d with
     | .off => (concl, seen)
+    | .atRoot => (concl, seen)
     | .byBinding =>
       if seen.any fun e => e.1 == id && e.2.1 == !isF && e.2.2.2 == [] && covers e.2.2.1 key then ([], seen)
       else (concl, (id, !isF, key, []) :: seen)
@@ -1025,6 +1051,7 @@ def anyTrue2 (pay : Payload) (r2 : Rel2) (leak : Bool) (dom : List Nat) (t : Sel
 
 structure KSt2 where
   ns : List NSt
+  root : Option Nat := none
   seen : Seen2 := []
   out : List (List Nat × Bnd) := []
 
@@ -1035,10 +1062,14 @@ def upd (s : KSt2) (i : Nat) (f : NSt → NSt) : KSt2 := { s with ns := s.ns.set
 def updateConclusion (d : Dedup) (s : KSt2) (id : Nat) (b : Bnd) (concl : List Nat) : KSt2 :=
   if concl.isEmpty then s
   else
+    let d := match d with
+      | .atRoot => if s.root == some id then Dedup.byConclusion else Dedup.off
+      | d => d
     let key := keyOf concl b
     let truth := !(s.get id).isF
     let seenBefore := match d with
       | .off => false
+      | .atRoot => false
       | .byBinding => s.seen.any fun e => e.1 == id && e.2.1 == truth && e.2.2.2 == [] && covers e.2.2.1 key
       | .byConclusion =>
         s.seen.any fun e => e.1 == id && e.2.1 == truth && e.2.2.2 == concl && covers e.2.2.1 key
@@ -1048,6 +1079,7 @@ def updateConclusion (d : Dedup) (s : KSt2) (id : Nat) (b : Bnd) (concl : List N
         { n with concl := concl.foldl (fun acc c => if acc.contains c then acc else acc ++ [c]) n.concl }
       match d with
       | .off => s
+      | .atRoot => s
       | .byBinding => { s with seen := (id, truth, key, []) :: s.seen }
       | .byConclusion => { s with seen := (id, truth, key, concl) :: s.seen }
 end KSt2
@@ -1120,7 +1152,16 @@ def runK2 (pay : Payload) (r2 : Rel2) (d : Dedup) (leak : Bool) (dom : List Nat)
     else
       let c := (s.get t.id).concl
       if c.isEmpty then s else { s with out := s.out ++ [(c, x)] })
-    { ns := nodes.map fun n => { concl := conclOf pay n.concl } }).out
+    { ns := nodes.map fun n => { concl := conclOf pay n.concl }, root := some t.id }).out
+
+/-- `Dedup.atRoot` over two variables: the key is the set of conclusions and the projection of the binding onto
+their variables -/
+def rootDedup2 (d : Dedup) (t : Sel) (rows : List (List Nat × Bnd)) : List (List Nat × Bnd) :=
+  match d, t with
+  | .atRoot, .node _ _ _ _ =>
+    rows.foldl (fun acc r =>
+      if acc.any fun a => a.1 == r.1 && keyOf a.1 a.2 == keyOf r.1 r.2 then acc else acc ++ [r]) []
+  | _, _ => rows
 
 inductive Obs2 where
   | ok (rows : List (List Nat × Bnd))
@@ -1138,7 +1179,7 @@ def modelOf2 (built : Option BState) (d : Dedup) (leak : Bool) (pay : Payload) (
     | some t =>
       let rk := runK2 pay r2 d leak dom st.nodes t
       if t.ids.Nodup then
-        let rt := topOuts2 (evalT2 pay r2 d leak dom t none []).1
+        let rt := rootDedup2 d t (topOuts2 (evalT2 pay r2 d leak dom t none []).1)
         if rt = rk then .ok rt else .mismatch
       else .ok rk
 
